@@ -297,6 +297,9 @@ impl UnitDefs {
     }
 }
 
+/// magnitudes of the remaining floating-point classes (thorough tiers): smallest subnormal, a
+/// subnormal, the largest finite value, the first integer that is not representable
+pub const M_EXTREME: [&str; 4] = ["5e-324", "1e-310", "1.7976931348623157e308", "9007199254740993"];
 pub const M8: [&str; 8] = ["1", "0", "-2.5", "40.5", "0.1", "1e-7", "123456.789", "1e30"];
 pub const M12: [&str; 12] = [
     "1", "0", "-2.5", "40.5", "0.1", "1e-7", "123456.789", "1e30", "NaN", "inf", "-inf", "-0",
